@@ -2,7 +2,7 @@
    Only ReplayLog needs a premise: each entry of the directory is one the reader returns (rl_entry_ok of the expanded
    entry, i.e. timestamp below 10^15 and encoding shorter than 10^9 bytes - the size premise). *)
 From Icv Require Import Base.Tac Replay.RlBytes Replay.RlModel Replay.RlBytesProofs Replay.RlProofs Replay.RlHistory
-  Replay.RlHistoryProofs Replay.RlSize Replay.RlSizeProofs Replay.RlCompact.
+  Replay.RlHistoryProofs Replay.RlSize Replay.RlSizeProofs Replay.RlFixed Replay.RlFixedProofs Replay.RlCompact.
 Local Open Scope Z_scope.
 
 Definition rl_x_cfiles (fs : list (Z * list rl_xentry)) : list (Z * rl_bytes) := map (fun f => (fst f, rl_xe_log (snd f))) fs.
@@ -118,12 +118,18 @@ Definition rl_x_ok (s : rl_xst) : Prop := Forall (fun f => rl_xes_ok (snd f)) (r
 Lemma rl_x_parse es : rl_xes_ok es -> rl_parse_log (rl_xe_log es) = map rl_xe_entry es.
 Proof. intros H. unfold rl_xe_log. apply rl_parse_enc_log. apply rl_Forall_map. exact H. Qed.
 
-Lemma rl_x_replay_file_bytes t tz s f : rl_xes_ok (snd f) ->
-  rl_replay_file t tz (rl_x_rs_bytes s) (fst f, rl_xe_log (snd f)) = rl_x_rs_bytes (rl_x_replay_file t tz s f).
-Proof. intros H. unfold rl_replay_file, rl_x_replay_file. cbn [fst snd]. rewrite rl_x_parse by assumption. apply rl_x_fold_rstep. Qed.
+Lemma rl_x_cut_bytes n : forall es, map rl_xe_entry (rl_x_cut n es) = rl_cut n (map rl_xe_entry es).
+Proof. induction es as [|e es IH]; [reflexivity|]. cbn [rl_x_cut map rl_cut rl_xe_entry rl_e_ts]. destruct (n <=? rl_xe_ts e); [reflexivity|]. cbn [map]. rewrite IH. reflexivity. Qed.
 
-Lemma rl_x_fold_files t tz : forall fs s, Forall (fun f => rl_xes_ok (snd f)) fs ->
-  fold_left (rl_replay_file t tz) (rl_x_cfiles fs) (rl_x_rs_bytes s) = rl_x_rs_bytes (fold_left (rl_x_replay_file t tz) fs s).
+Lemma rl_x_replay_file_bytes bound t tz s f : rl_xes_ok (snd f) ->
+  rl_replay_file_f bound t tz (rl_x_rs_bytes s) (fst f, rl_xe_log (snd f)) = rl_x_rs_bytes (rl_x_replay_file bound t tz s f).
+Proof.
+  intros H. unfold rl_replay_file_f, rl_x_replay_file. cbn [fst snd]. rewrite rl_x_parse by assumption.
+  destruct bound; [rewrite <- rl_x_cut_bytes|]; apply rl_x_fold_rstep.
+Qed.
+
+Lemma rl_x_fold_files bound t tz : forall fs s, Forall (fun f => rl_xes_ok (snd f)) fs ->
+  fold_left (rl_replay_file_f bound t tz) (rl_x_cfiles fs) (rl_x_rs_bytes s) = rl_x_rs_bytes (fold_left (rl_x_replay_file bound t tz) fs s).
 Proof.
   induction fs as [|f fs IH]; intros s H; [reflexivity|]. inversion H; subst.
   cbn [rl_x_cfiles map fold_left]. fold (rl_x_cfiles fs). rewrite rl_x_replay_file_bytes by assumption. apply IH. assumption.
@@ -136,10 +142,10 @@ Proof.
   rewrite (rl_x_filter_names (fun n => p <=? n)). unfold rl_x_cfiles. rewrite map_app. reflexivity.
 Qed.
 
-Lemma rl_x_pass_bytes t tz now st s : rl_x_ok st ->
-  rl_replay_pass t tz now (rl_x_conc st) (rl_x_rs_bytes s) = rl_x_rs_bytes (rl_x_replay_pass t tz now st s).
+Lemma rl_x_pass_bytes bound t tz now st s : rl_x_ok st ->
+  rl_replay_pass_f bound t tz now (rl_x_conc st) (rl_x_rs_bytes s) = rl_x_rs_bytes (rl_x_replay_pass bound t tz now st s).
 Proof.
-  intros [Hf Hc]. unfold rl_replay_pass, rl_x_replay_pass. cbn [rl_x_rs_bytes rl_r_peer rl_r_logpos rl_r_out].
+  intros [Hf Hc]. unfold rl_replay_pass_f, rl_x_replay_pass. cbn [rl_x_rs_bytes rl_r_peer rl_r_logpos rl_r_out].
   rewrite rl_x_pass_files_bytes.
   change {| rl_r_peer := rl_xr_peer s; rl_r_logpos := rl_xr_logpos s; rl_r_cnt := 0; rl_r_out := rl_x_out_bytes (rl_xr_out s) |}
     with (rl_x_rs_bytes {| rl_xr_peer := rl_xr_peer s; rl_xr_logpos := rl_xr_logpos s; rl_xr_cnt := 0; rl_xr_out := rl_xr_out s |}).
@@ -148,33 +154,57 @@ Proof.
   - constructor; [exact Hc|constructor].
 Qed.
 
-Lemma rl_x_loop_bytes t tz now st : rl_x_ok st -> forall fuel count s,
-  rl_replay_loop fuel t tz now (rl_x_conc st) count (rl_x_rs_bytes s) =
-    (rl_x_rs_bytes (fst (rl_x_replay_loop fuel t tz now st count s)), snd (rl_x_replay_loop fuel t tz now st count s)).
+Lemma rl_x_loop_bytes bound t tz now st : rl_x_ok st -> forall fuel count s,
+  rl_replay_loop_f bound fuel t tz now (rl_x_conc st) count (rl_x_rs_bytes s) =
+    (rl_x_rs_bytes (fst (rl_x_replay_loop bound fuel t tz now st count s)), snd (rl_x_replay_loop bound fuel t tz now st count s)).
 Proof.
-  intros Hok. induction fuel as [|f IH]; intros count s; [reflexivity|]. cbn [rl_replay_loop rl_x_replay_loop].
+  intros Hok. induction fuel as [|f IH]; intros count s; [reflexivity|]. cbn [rl_replay_loop_f rl_x_replay_loop].
   rewrite rl_x_pass_bytes by assumption.
   destruct (negb ((count =? -1) || (50000 <? count))); [reflexivity|].
-  change (rl_r_cnt (rl_x_rs_bytes (rl_x_replay_pass t tz now st s))) with (rl_xr_cnt (rl_x_replay_pass t tz now st s)). apply IH.
+  change (rl_r_cnt (rl_x_rs_bytes (rl_x_replay_pass bound t tz now st s))) with (rl_xr_cnt (rl_x_replay_pass bound t tz now st s)). apply IH.
 Qed.
 
 Lemma rl_x_out_bytes_rev o : rev (rl_x_out_bytes o) = rl_x_out_bytes (rev o).
 Proof. unfold rl_x_out_bytes. symmetry. apply map_rev. Qed.
 
-(* ReplayLog of the byte-level model on the directory a record-level state stands for emits the expansion of what the
-   record-level ReplayLog emits, reaches its last pass in the same cases and leaves the corresponding state *)
-Theorem rl_x_conc_replay t now ep st : rl_x_ok st ->
-  let rx := rl_x_replay t now ep st in
-  let rb := rl_replay t now ep (rl_x_conc st) in
+(* ReplayLog of the byte-level model - in either form of the timestamp bound - on the directory a record-level state stands
+   for emits the expansion of what the record-level ReplayLog emits, reaches its last pass in the same cases and leaves the
+   corresponding state *)
+Theorem rl_x_conc_replay_f bound t now ep st : rl_x_ok st ->
+  let rx := rl_x_replay bound t now ep st in
+  let rb := rl_replay_f bound t now ep (rl_x_conc st) in
   rl_rr_out rb = rl_x_out_bytes (rl_xrr_out rx) /\ rl_rr_done rb = rl_xrr_done rx /\ rl_rr_st rb = rl_x_conc (rl_xrr_st rx).
 Proof.
-  intros Hok. cbv zeta. unfold rl_replay, rl_x_replay. destruct (rl_ep_dur ep =? 0).
+  intros Hok. cbv zeta. unfold rl_replay_f, rl_x_replay. destruct (rl_ep_dur ep =? 0).
   { repeat split. }
   change {| rl_r_peer := rl_ep_pos ep; rl_r_logpos := rl_ep_pos ep; rl_r_cnt := 0; rl_r_out := [] |}
     with (rl_x_rs_bytes {| rl_xr_peer := rl_ep_pos ep; rl_xr_logpos := rl_ep_pos ep; rl_xr_cnt := 0; rl_xr_out := [] |}).
   rewrite rl_x_loop_bytes by assumption.
-  destruct (rl_x_replay_loop 3 t (rl_ep_zone ep) now st (-1) _) as [s d]. cbn [fst snd rl_rr_out rl_rr_done rl_rr_st rl_xrr_out rl_xrr_done rl_xrr_st].
+  destruct (rl_x_replay_loop bound 3 t (rl_ep_zone ep) now st (-1) _) as [s d]. cbn [fst snd rl_rr_out rl_rr_done rl_rr_st rl_xrr_out rl_xrr_done rl_xrr_st].
   split; [|split; reflexivity]. cbn [rl_x_rs_bytes rl_r_out]. apply rl_x_out_bytes_rev.
+Qed.
+
+Lemma rl_x_out_view_bytes emit o : rl_x_out_bytes (rl_x_out_view emit o) = rl_out_view emit (rl_x_out_bytes o).
+Proof.
+  destruct emit; [reflexivity|]. cbn [rl_x_out_view rl_out_view]. induction o as [|x o IH]; [reflexivity|].
+  cbn [filter rl_x_out_bytes map]. destruct x as [m|p]; cbn [rl_x_is_msg rl_is_msg]; [cbn [map]; f_equal|]; exact IH.
+Qed.
+
+(* ... hence for the pinned form (RlModel.rl_replay) and for the form the source has now *)
+Theorem rl_x_conc_replay t now ep st : rl_x_ok st ->
+  let rx := rl_x_replay false t now ep st in
+  let rb := rl_replay t now ep (rl_x_conc st) in
+  rl_rr_out rb = rl_x_out_bytes (rl_xrr_out rx) /\ rl_rr_done rb = rl_xrr_done rx /\ rl_rr_st rb = rl_x_conc (rl_xrr_st rx).
+Proof. intros Hok. cbv zeta. rewrite <- rl_replay_f_pinned. apply rl_x_conc_replay_f. assumption. Qed.
+
+Theorem rl_x_conc_replay_fe emit bound t now ep st : rl_x_ok st ->
+  let rx := rl_x_replay_fe emit bound t now ep st in
+  let rb := rl_replay_fe emit bound t now ep (rl_x_conc st) in
+  rl_rr_out rb = rl_x_out_bytes (rl_xrr_out rx) /\ rl_rr_done rb = rl_xrr_done rx /\ rl_rr_st rb = rl_x_conc (rl_xrr_st rx).
+Proof.
+  intros Hok. cbv zeta. destruct (rl_x_conc_replay_f bound t now ep st Hok) as (A & B & C).
+  unfold rl_replay_fe, rl_x_replay_fe. cbn [rl_rr_out rl_rr_done rl_rr_st rl_xrr_out rl_xrr_done rl_xrr_st].
+  rewrite A, rl_x_out_view_bytes. repeat split; assumption.
 Qed.
 
 (* the decodable entries of the directory are the recorded entries, whatever their size below the bound *)
